@@ -330,6 +330,8 @@ def new_pat(rng, cm, kind, form, tz_ok=True):
     po = {'form': form, 'kind': kind, 'patterns': pick_patterns(rng, kind, n), 'tz': None}
     if eng == 'v1' and tz_ok and kind != 'date' and rng.random() < 0.45:
         po['tz'] = rng.choice(['UTC', 'UTC'] + ZONES)
+    elif eng == 'v1' and tz_ok and kind == 'date' and form == 'ann' and rng.random() < 0.06:
+        po['tz'] = rng.choice(['UTC'] + ZONES)      # outside the documented API: correspondence only, no oracle
     cm['pats'].append(po)
     return len(cm['pats']) - 1
 
@@ -470,6 +472,8 @@ def iso_convert(spec, v):
 def expect_leaf(engine, spec, text):
     """what the property demands of a string at a position: ('ok', [acceptable canonical values]) or ('err', patterns)"""
     kind = spec['kind']
+    if kind == 'date' and spec['tz'] is not None:
+        return ('skip',)
     iso = iso_read(kind, text)
     if spec['patterns'] is None:
         return ('ok', [enc_pv(iso_convert(spec, iso))]) if iso is not None else ('err', None)
@@ -878,7 +882,7 @@ def run(ctx: C.Ctx):
                         'an Aware/UTC pattern on a `date` target is outside the documented API and not generated']
     quirks = probe_quirks()
     ctx.notes['quirks_probed'] = quirks
-    ncls = ctx.quick(1200, 8000)
+    ncls = ctx.quick(1200, 12000)
     reqs, pend = [], []
     for i in range(ncls):
         if ctx.done(i):
@@ -937,6 +941,10 @@ def run(ctx: C.Ctx):
                     docs_all.append(d)
                 # ---------------- oracle
                 got = out['load']
+                if any(kind_ == 'date' and pid_ is not None and cm['pats'][pid_]['tz'] is not None
+                       for kind_, _s, pid_, _x in leaves(f['ty'], f['ann'], [])):
+                    ctx.count('oracle:skip:zone-on-date-target')     # outside the documented API: correspondence only
+                    continue
                 if 'ok' in got and key_collision(doc, got['ok']):
                     ctx.count('oracle:skip:dict-keys-load-to-equal-values')
                     continue
